@@ -98,7 +98,27 @@ def _aspec(lname, outer):
     return ["pytree", L, outer]
 
 
-def run_sequence(lname, outer, seq, plain, stats):
+def _build_aliased(spec, memo):
+    """Like specs.build_val, but leaves with equal specs within one tree are THE SAME object
+    (tied / aliased leaves)."""
+    from .. import specs
+
+    k = spec[0]
+    if k == "duck":
+        key = repr(spec)
+        if key not in memo:
+            memo[key] = specs.build_val(spec)
+        return memo[key]
+    if k == "tuple":
+        return tuple(_build_aliased(x, memo) for x in spec[1])
+    if k == "list":
+        return [_build_aliased(x, memo) for x in spec[1]]
+    if k == "dict":
+        return {kk: _build_aliased(v, memo) for kk, v in spec[1].items()}
+    return specs.build_val(spec)
+
+
+def run_sequence(lname, outer, seq, plain, stats, aliased=False):
     """Execute one sequence on the implementation inside one context and compare every
     step with the reference.  Returns None or (kind, index, what)."""
     from .. import adapter, specs
@@ -125,7 +145,7 @@ def run_sequence(lname, outer, seq, plain, stats):
                 rctx = (dict(rctx[0], n=5), rctx[1], rctx[2])
             if ts is None:
                 break
-            val = specs.build_val(ts)
+            val = _build_aliased(ts, {}) if aliased else specs.build_val(ts)
             got = adapter.check(val, ann)
             stats["transitions"] += 1
             stats["true" if got is True else "false" if got is False else "annot"] += 1
@@ -174,7 +194,7 @@ def run_sequence(lname, outer, seq, plain, stats):
 
 def _shard(job):
     common.bind_repo()
-    stats = dict(transitions=0, sequences=0, true=0, false=0, annot=0, dontcare=0, nontrivial=0)
+    stats = dict(transitions=0, sequences=0, true=0, false=0, annot=0, dontcare=0, nontrivial=0, aliased=0)
     viols, samples = [], []
     for lname, outer, tier, lo, hi in job["work"]:
         seqs = list(sequences(lname, tier))[lo:hi]
@@ -186,13 +206,20 @@ def _shard(job):
                     continue
                 stats["sequences"] += 1
                 bad = run_sequence(lname, outer, seq, plain, stats)
+                if bad is None and outer == "T" and plain is None and any(len(set(z)) < len(z) for _, z in seq):
+                    # the same array object at several leaf positions of one tree
+                    stats["sequences"] += 1
+                    stats["aliased"] = stats.get("aliased", 0) + 1
+                    bad = run_sequence(lname, outer, seq, plain, stats, aliased=True)
+                    if bad is not None:
+                        bad = (bad[0] + "-aliased-leaves", bad[1], bad[2] + " [equal leaves are ONE object]")
                 if bad is not None:
                     kind, i, what = bad
                     viols.append(
                         Violation(
                             key=f"C16:{lname}:outer={outer}:{kind}",
                             what=f"sequence {seq} plain-n@{plain}: {what}",
-                            replay=dict(lname=lname, outer=outer, seq=[[s, list(z)] for s, z in seq], plain=plain),
+                            replay=dict(lname=lname, outer=outer, seq=[[s, list(z)] for s, z in seq], plain=plain, aliased="aliased" in bad[0]),
                         ).to_json()
                     )
                 elif len(samples) < 2 and len(seq) >= 2 and outer == "T":
@@ -219,6 +246,7 @@ def run(ctx):
         traces_validated_against_impl=stats["transitions"],
         samples=samples,
         sequences=stats["sequences"],
+        sequences_with_aliased_leaves=stats.get("aliased", 0),
         leaf_types=list(LTYPES),
         outer_forms=["PyTree[L,'T']", "PyTree[L]", "L alone"],
         verdict_true=stats["true"],
@@ -235,5 +263,5 @@ def run(ctx):
 def replay(rep):
     common.bind_repo()
     stats = dict(transitions=0, sequences=0, true=0, false=0, annot=0, dontcare=0, nontrivial=0)
-    bad = run_sequence(rep["lname"], rep["outer"], [(s, tuple(z)) for s, z in rep["seq"]], rep["plain"], stats)
+    bad = run_sequence(rep["lname"], rep["outer"], [(s, tuple(z)) for s, z in rep["seq"]], rep["plain"], stats, aliased=bool(rep.get("aliased")))
     return dict(annotation=repr(_aspec(rep["lname"], rep["outer"])), result=repr(bad), violates=bad is not None)
